@@ -1,6 +1,490 @@
-//! C03 — monitor not written yet.
-use crate::ctx::Ctx;
+//! C03 — the customer can always close on an unrevoked valid state; bad replies are inert.
+//!
+//! Histories of payments with a fault alphabet injected before the honest reply at each of the
+//! four merchant replies the customer consumes. Monitors: (a) byte image of the state before /
+//! after a refusal; (b) an *independent* classification of every reply (unblind with the blinding
+//! factor read from the state bytes, pairing reference on the message read from the state bytes)
+//! against what the customer did; (c) at every point a closing message from a copy of the state
+//! is accepted by the merchant-side close check, carries the ledger's balances for that stage, and
+//! a lock never disclosed before; (d) a lock message only comes out of a step whose closing
+//! signature the independent check accepts, and discloses exactly the old state's lock.
+
+use crate::ctx::{guard, Ctx};
+use crate::fixtures::{self, Merchant};
+use crate::props::c04::candidate_amounts;
+use crate::props::util::*;
+use crate::refs::*;
+use crate::session::{amount, new_channel_id, Sess, Stage};
+use crate::srng::ScriptRng;
+use crate::tracer::{trace, Trace};
+use crate::wire::{dec, enc, rand_g1};
+use bls12_381::{G1Affine, G1Projective, Scalar};
+use ff::Field;
+use group::Curve;
+use rand_core::{CryptoRng, RngCore};
+use serde_json::json;
+use zkabacus_crypto::{revlock::RevocationPair, Verification};
+use zkchannels_crypto::Message;
+
+const MAXB: u64 = i64::MAX as u64;
+
+fn stage_trace(s: &Stage) -> Result<Trace, String> {
+    match s {
+        Stage::None => Err("no stage".into()),
+        Stage::Requested(x) => trace(x),
+        Stage::Inactive(x) => trace(x),
+        Stage::Ready(x) => trace(x),
+        Stage::Started(x) => trace(x),
+        Stage::Locked(x) => trace(x),
+    }
+}
+
+fn state_msg(t: &Trace, prefix: &str) -> Result<[Scalar; 5], String> {
+    let cid = raw32_to_scalar(&t.fget(&format!("{}/channel_id", prefix))?);
+    let nonce = sc(&t.fget(&format!("{}/nonce", prefix))?).ok_or("nonce")?;
+    let lock = sc(&t.fget(&format!("{}/revocation_pair/lock", prefix))?).ok_or("lock")?;
+    let c = le64(&t.fget(&format!("{}/customer_balance", prefix))?);
+    let m = le64(&t.fget(&format!("{}/merchant_balance", prefix))?);
+    Ok([cid, nonce, lock, Scalar::from(c), Scalar::from(m)])
+}
+
+fn close_of(st: &[Scalar; 5]) -> [Scalar; 5] {
+    [st[0], close_tag_ref(), st[2], st[3], st[4]]
+}
+
+/// What the stage is waiting for: (expected message, blinding factor, is it a closing signature?)
+pub struct Waiting {
+    pub msg: [Scalar; 5],
+    pub other_kind_msg: [Scalar; 5],
+    pub bf: Scalar,
+    pub closing: bool,
+}
+
+pub fn waiting_for(stage: &Stage) -> Result<Waiting, String> {
+    let t = stage_trace(stage)?;
+    let g = |p: &str| -> Result<Scalar, String> { sc(&t.fget(p)?).ok_or_else(|| format!("bad scalar at {}", p)) };
+    match stage {
+        Stage::Requested(_) => {
+            let st = state_msg(&t, "state")?;
+            Ok(Waiting { msg: close_of(&st), other_kind_msg: st, bf: g("close_state_blinding_factor")?, closing: true })
+        }
+        Stage::Inactive(_) => {
+            let st = state_msg(&t, "state")?;
+            Ok(Waiting { msg: st, other_kind_msg: close_of(&st), bf: g("blinding_factor")?, closing: false })
+        }
+        Stage::Started(_) => {
+            let st = state_msg(&t, "new_state")?;
+            Ok(Waiting { msg: close_of(&st), other_kind_msg: st, bf: g("blinding_factors/for_close_state")?, closing: true })
+        }
+        Stage::Locked(_) => {
+            let st = state_msg(&t, "state")?;
+            Ok(Waiting { msg: st, other_kind_msg: close_of(&st), bf: g("blinding_factor")?, closing: false })
+        }
+        _ => Err(format!("stage {} waits for no reply", stage.name())),
+    }
+}
+
+/// independent classification of a reply: does it unblind to a valid signature on `msg`?
+pub fn reply_valid(m: &Merchant, reply: &[u8], w: &Waiting) -> bool {
+    if reply.len() != 96 {
+        return false;
+    }
+    let (Some(s1), Some(s2)) = (g1(&reply[..48]), g1(&reply[48..])) else { return false };
+    let (u1, u2) = unblind_ref(&s1, &s2, &w.bf);
+    ps_verify_ref(&m.pk, &u1, &u2, &w.msg)
+}
+
+/// a signature on `msg` under `signer`, blinded so that unblinding with `bf` yields it
+fn evil_reply(rng: &mut (impl RngCore + CryptoRng), signer: &Merchant, msg: &[Scalar; 5], bf: &Scalar) -> Vec<u8> {
+    let sig = Message::new(*msg).sign(rng, signer.cfg.signing_keypair());
+    let s1 = sig.sigma1();
+    let s2 = (G1Projective::from(sig.sigma2()) + G1Projective::from(s1) * *bf).to_affine();
+    let mut b = s1.to_compressed().to_vec();
+    b.extend_from_slice(&s2.to_compressed());
+    b
+}
+
+fn tweak(msg: &[Scalar; 5], slot: usize, d: Scalar) -> [Scalar; 5] {
+    let mut m = *msg;
+    m[slot] += d;
+    m
+}
+
+pub struct Fault {
+    pub kind: String,
+    pub bytes: Vec<u8>,
+}
+
+/// The fault alphabet for the reply the stage is waiting for.
+pub fn faults(
+    rng: &mut (impl RngCore + CryptoRng),
+    m: &'static Merchant,
+    other: &'static Merchant,
+    w: &Waiting,
+    honest: &[u8],
+    recorded: &[(String, Vec<u8>)],
+) -> Vec<Fault> {
+    let mut v = vec![];
+    let mut push = |k: &str, b: Vec<u8>| v.push(Fault { kind: k.to_string(), bytes: b });
+    // garbage: a random valid pair of points
+    {
+        let mut b = rand_g1(rng).to_compressed().to_vec();
+        b.extend_from_slice(&rand_g1(rng).to_compressed());
+        push("random-pair", b);
+    }
+    // the honest reply blinded for another factor / with sigma2 shifted
+    if let (Some(s1), Some(s2)) = (g1(&honest[..48]), g1(&honest[48..])) {
+        let d = Scalar::random(&mut *rng);
+        let t = (G1Projective::from(s2) + G1Projective::from(s1) * d).to_affine();
+        let mut b = s1.to_compressed().to_vec();
+        b.extend_from_slice(&t.to_compressed());
+        push("honest-reblinded-other-factor", b);
+        let t = (G1Projective::from(s2) + G1Projective::from(s1)).to_affine();
+        let mut b = s1.to_compressed().to_vec();
+        b.extend_from_slice(&t.to_compressed());
+        push("honest-sigma2+sigma1", b);
+        // swapped components
+        let mut b = s2.to_compressed().to_vec();
+        b.extend_from_slice(&s1.to_compressed());
+        push("honest-components-swapped", b);
+    }
+    // evil merchant: valid signatures on wrong messages, correctly blinded for this customer
+    let one = Scalar::one();
+    push("evil/customer-balance+1", evil_reply(rng, m, &tweak(&w.msg, 3, one), &w.bf));
+    push("evil/customer-balance-1", evil_reply(rng, m, &tweak(&w.msg, 3, -one), &w.bf));
+    push("evil/merchant-balance+1", evil_reply(rng, m, &tweak(&w.msg, 4, one), &w.bf));
+    push("evil/balances-swapped", {
+        let mut x = w.msg;
+        x.swap(3, 4);
+        if x == w.msg {
+            x[3] += one;
+        }
+        evil_reply(rng, m, &x, &w.bf)
+    });
+    let other_cid = Scalar::random(&mut *rng);
+    push("evil/other-channel-id", evil_reply(rng, m, &tweak(&w.msg, 0, other_cid), &w.bf));
+    push("evil/other-lock", evil_reply(rng, m, &tweak(&w.msg, 2, one), &w.bf));
+    push("evil/second-slot+1", evil_reply(rng, m, &tweak(&w.msg, 1, one), &w.bf));
+    // wrong type: the other kind of message for the same state
+    push(if w.closing { "wrong-type/pay-token-for-closing-signature" } else { "wrong-type/closing-signature-for-pay-token" }, evil_reply(rng, m, &w.other_kind_msg, &w.bf));
+    // right message, wrong key
+    push("other-merchant-key", evil_reply(rng, other, &w.msg, &w.bf));
+    // right message and key, blinded for a different factor
+    push("right-signature-wrong-blinding", evil_reply(rng, m, &w.msg, &(w.bf + one)));
+    // replies recorded elsewhere (other session / channel / earlier payment)
+    for (k, b) in recorded {
+        if b.as_slice() != honest {
+            push(&format!("replay/{}", k), b.clone());
+        }
+    }
+    // all-identity signature: what the merchant's signer emits under a zero randomiser. Produced
+    // through the API (BlindedSignature of the honest flow under a scripted RNG) by the caller;
+    // here its wire image, which carries the infinity flag in both points.
+    {
+        let mut b = crate::wire::g1_identity_bytes().to_vec();
+        b.extend_from_slice(&crate::wire::g1_identity_bytes());
+        push("all-identity", b);
+    }
+    v
+}
+
+struct Run<'a> {
+    m: &'static Merchant,
+    other: &'static Merchant,
+    s: Sess,
+    trail: Vec<String>,
+    recorded: &'a mut Vec<(String, Vec<u8>)>,
+    nfaults: usize,
+    name: String,
+}
+
+impl<'a> Run<'a> {
+    /// observation point (c)
+    fn observe(&mut self, c: &mut Ctx, rng: &mut (impl RngCore + CryptoRng), at: &str) {
+        let expect = self.s.ideal_balances();
+        let cm = match self.s.stage.close_from_copy(rng) {
+            Ok(x) => x,
+            Err(e) => {
+                return c.violation(&format!("C03 cannot-close stage={}", self.s.stage.name()), json!({"error": e, "at": at, "trail": self.trail}));
+            }
+        };
+        let Some(cm) = cm else { return };
+        c.eval();
+        c.distinct(&format!("close/{}/{}/{}-{}", self.s.stage.name(), at, expect.0, expect.1));
+        let got = (cm.customer_balance().into_inner(), cm.merchant_balance().into_inner());
+        let cid_ok = cm.channel_id().to_bytes() == self.s.cid.to_bytes();
+        let lock = cm.revocation_lock().as_bytes();
+        let lock_fresh = !self.s.disclosed_locks.iter().any(|l| *l == lock);
+        let (sig, st) = cm.into_parts();
+        let accepted = matches!(self.m.cfg.check_close_signature(sig, &st), Verification::Verified);
+        if !(accepted && cid_ok && got == expect && lock_fresh) {
+            c.violation(
+                &format!("C03 bad-closing-message stage={}", self.s.stage.name()),
+                json!({"at": at, "merchant_accepts": accepted, "channel_id_matches": cid_ok, "balances": [got.0.to_string(), got.1.to_string()],
+                       "ledger_for_stage": [expect.0.to_string(), expect.1.to_string()], "lock_never_disclosed": lock_fresh, "trail": self.trail}),
+            );
+        } else {
+            c.count(&format!("closes_ok[{}]", self.s.stage.name()), 1);
+        }
+    }
+
+    /// inject faults, then deliver the honest reply, at the current reply point
+    fn reply_point(&mut self, c: &mut Ctx, rng: &mut (impl RngCore + CryptoRng), honest: &[u8]) -> bool {
+        let stage_name = self.s.stage.name();
+        let w = match waiting_for(&self.s.stage) {
+            Ok(w) => w,
+            Err(e) => {
+                c.inconclusive(&e);
+                return false;
+            }
+        };
+        let alphabet = faults(rng, self.m, self.other, &w, honest, self.recorded);
+        // choose nfaults of them (quick), rotating through the alphabet across reply points
+        let k = self.nfaults.min(alphabet.len());
+        let start = (rng.next_u32() as usize) % alphabet.len();
+        for i in 0..k {
+            let f = &alphabet[(start + i * 7) % alphabet.len()];
+            let valid = reply_valid(self.m, &f.bytes, &w);
+            let before = self.s.stage.bytes();
+            let locks_before = self.s.disclosed_locks.len();
+            let r = match stage_name {
+                "requested" => self.s.c_complete(&f.bytes),
+                "inactive" => self.s.c_activate(&f.bytes),
+                "started" => self.s.c_lock(&f.bytes).map(|o| o.is_some()),
+                "locked" => self.s.c_unlock(&f.bytes),
+                _ => Err("no reply point".into()),
+            };
+            c.eval();
+            c.distinct(&format!("fault/{}/{}/{}", stage_name, f.kind.split('/').next().unwrap_or(""), f.kind));
+            c.count(&format!("faults[{}]", f.kind.split('/').next().unwrap_or("")), 1);
+            let accepted = match r {
+                Ok(a) => a,
+                Err(_) => {
+                    // not decodable (e.g. the identity signature): rejected at the wire
+                    c.count("faults_rejected_at_decode", 1);
+                    false
+                }
+            };
+            if valid {
+                // the independent check says this reply IS a valid signature on the expected message
+                // (cannot happen for the alphabet except through negligible coincidences)
+                c.inconclusive(&format!("C03: fault {} classified valid by the independent check", f.kind));
+                return false;
+            }
+            if accepted {
+                c.violation(
+                    &format!("C03 invalid-reply-accepted stage={} fault={}", stage_name, f.kind),
+                    json!({"fault": f.kind, "trail": self.trail, "lock_message_released": self.s.disclosed_locks.len() > locks_before}),
+                );
+                return false;
+            }
+            if self.s.stage.bytes() != before || self.s.stage.name() != stage_name {
+                c.violation(
+                    &format!("C03 refusal-changed-state stage={} fault={}", stage_name, f.kind),
+                    json!({"fault": f.kind, "trail": self.trail}),
+                );
+                return false;
+            }
+            if self.s.disclosed_locks.len() != locks_before {
+                c.violation(&format!("C03 lock-released-on-refusal fault={}", f.kind), json!({"trail": self.trail}));
+                return false;
+            }
+            self.trail.push(format!("{}: {} refused", stage_name, f.kind));
+            self.observe(c, rng, &format!("after-refusal/{}", f.kind.split('/').next().unwrap_or("")));
+        }
+        // the honest reply
+        let valid = reply_valid(self.m, honest, &w);
+        if !valid {
+            c.inconclusive("C03: the honest reply is invalid by the independent check (C04/C07's subject)");
+            return false;
+        }
+        let old_lock = stage_trace(&self.s.stage).ok().and_then(|t| t.fget("old_state/revocation_pair/lock").ok());
+        let r = match stage_name {
+            "requested" => self.s.c_complete(honest),
+            "inactive" => self.s.c_activate(honest),
+            "started" => self.s.c_lock(honest).map(|o| {
+                if let Some((pair, _bf)) = &o {
+                    // (d) the disclosed lock is exactly the old state's
+                    if let (Ok(p), Some(ol)) = (dec::<RevocationPair>(pair), &old_lock) {
+                        if p.revocation_lock().as_bytes().to_vec() != *ol {
+                            c.violation("C03 lock-message-discloses-wrong-lock", json!({"trail": self.trail}));
+                        }
+                    }
+                }
+                o.is_some()
+            }),
+            "locked" => self.s.c_unlock(honest),
+            _ => Err("no reply point".into()),
+        };
+        c.eval();
+        match r {
+            Ok(true) => {
+                self.recorded.push((format!("{}-{}", stage_name, self.recorded.len()), honest.to_vec()));
+                true
+            }
+            Ok(false) => {
+                c.violation(&format!("C03 valid-reply-refused stage={}", stage_name), json!({"trail": self.trail}));
+                false
+            }
+            Err(e) => {
+                c.violation(&format!("C03 valid-reply-error stage={}", stage_name), json!({"error": e, "trail": self.trail}));
+                false
+            }
+        }
+    }
+}
+
+fn run_history(c: &mut Ctx, m: &'static Merchant, other: &'static Merchant, name: &str, cust0: u64, merch0: u64, payments: usize, nfaults: usize, recorded: &mut Vec<(String, Vec<u8>)>) {
+    let mut rng = c.rng(name);
+    let ctxb = name.as_bytes().to_vec();
+    let cid = new_channel_id(m, &mut rng, b"m", b"c");
+    let (s, proof) = match Sess::request(m, &mut rng, cid, cust0, merch0, &ctxb) {
+        Ok(x) => x,
+        Err(e) => return c.inconclusive(&e),
+    };
+    let mut r = Run { m, other, s, trail: vec![format!("open {} {}", cust0, merch0)], recorded, nfaults, name: name.to_string() };
+    r.observe(c, &mut rng, "requested");
+    let sig = match r.s.m_initialize(&mut rng, cust0, merch0, &proof, &ctxb) {
+        Ok(Some(x)) => x,
+        _ => return c.inconclusive("C03: honest establish refused (C04's subject)"),
+    };
+    if !r.reply_point(c, &mut rng, &sig) {
+        return;
+    }
+    r.observe(c, &mut rng, "inactive");
+    let tok = match r.s.m_activate(&mut rng) {
+        Ok(x) => x,
+        Err(e) => return c.inconclusive(&e),
+    };
+    if !r.reply_point(c, &mut rng, &tok) {
+        return;
+    }
+    r.observe(c, &mut rng, "ready");
+    for _p in 0..payments {
+        let (cust, merch) = r.s.ledger;
+        let cands: Vec<i64> = candidate_amounts(cust, merch, &mut rng).into_iter().filter(|a| ledger_apply(cust, merch, *a).is_ok()).collect();
+        if cands.is_empty() {
+            break;
+        }
+        let a = cands[(rng.next_u32() as usize) % cands.len()];
+        let pa = match amount(a) {
+            Ok(x) => x,
+            Err(_) => continue,
+        };
+        r.trail.push(format!("pay {}", a));
+        let (nonce, proof) = match r.s.c_start(&mut rng, pa, &ctxb) {
+            Ok(Ok(x)) => x,
+            _ => return c.inconclusive("C03: in-range start refused (C04's subject)"),
+        };
+        r.observe(c, &mut rng, "started");
+        let sig = match r.s.m_allow(&mut rng, pa, &nonce, &proof, &ctxb) {
+            Ok(Some(x)) => x,
+            _ => return c.inconclusive("C03: honest pay proof refused (C04's subject)"),
+        };
+        if !r.reply_point(c, &mut rng, &sig) {
+            return;
+        }
+        r.observe(c, &mut rng, "locked");
+        let (pair, bf) = {
+            // the lock message was logged by the session driver
+            let n = r.s.log.len();
+            (r.s.log[n - 2].bytes.clone(), r.s.log[n - 1].bytes.clone())
+        };
+        let tok = match r.s.m_complete(&mut rng, &pair, &bf) {
+            Ok(Some(x)) => x,
+            _ => return c.inconclusive("C03: honest revocation refused (C05's subject)"),
+        };
+        if !r.reply_point(c, &mut rng, &tok) {
+            return;
+        }
+        r.observe(c, &mut rng, "ready");
+        c.count("payments_with_faults_completed", 1);
+    }
+    c.count("histories", 1);
+    c.sample(json!({"history": r.name, "initial": [cust0.to_string(), merch0.to_string()], "trail": r.trail.iter().take(40).collect::<Vec<_>>()}));
+}
+
+/// the all-identity signature is what the merchant emits when its randomiser is zero: drive the
+/// real merchant with a scripted RNG and check what reaches the customer
+fn identity_through_api(c: &mut Ctx, m: &'static Merchant) {
+    c.case("identity-signature-through-api", |c| {
+        let mut rng = c.rng("identity");
+        let cid = new_channel_id(m, &mut rng, b"m", b"c");
+        let (mut s, proof) = match Sess::request(m, &mut rng, cid, 5, 5, b"id") {
+            Ok(x) => x,
+            Err(e) => return c.inconclusive(&e),
+        };
+        // dry run to find the 64-byte draw of the signer, then inject zeros there
+        let mut dry = ScriptRng::new([7u8; 32]);
+        let _ = s.m_initialize(&mut dry, 5, 5, &proof, b"id");
+        let draws = dry.draws_of_len(64);
+        c.note("merchant_initialize_scalar_draws", json!(draws.len()));
+        for d in draws {
+            let mut scripted = ScriptRng::new([7u8; 32]);
+            scripted.inject(d, vec![0u8; 64]);
+            c.eval();
+            c.distinct(&format!("identity/draw{}", d));
+            let before = s.stage.bytes();
+            let r = guard(|| s.m_initialize(&mut scripted, 5, 5, &proof, b"id"));
+            match r {
+                Ok(Ok(Some(sig))) => {
+                    let is_identity = sig[..48] == crate::wire::g1_identity_bytes()[..];
+                    c.count(if is_identity { "merchant_emitted_identity_signature" } else { "merchant_emitted_regular_signature" }, 1);
+                    match s.c_complete(&sig) {
+                        Ok(true) if is_identity => c.violation("C03 invalid-reply-accepted stage=requested fault=identity-through-api", json!({})),
+                        Ok(true) => {
+                            // a regular signature was accepted: restart the session for the next draw
+                            return;
+                        }
+                        _ => {
+                            if s.stage.bytes() != before {
+                                c.violation("C03 refusal-changed-state stage=requested fault=identity-through-api", json!({}));
+                            }
+                        }
+                    }
+                }
+                Ok(_) => {}
+                Err(p) => c.count(&format!("merchant_panicked_under_zero_randomiser[{}]", repo_rel(&p.location)), 1),
+            }
+        }
+        let _ = enc(&0u8);
+        let _: Option<G1Affine> = None;
+    });
+}
 
 pub fn run(c: &mut Ctx) {
-    c.inconclusive("C03: monitor not written yet");
+    c.note("rule", json!("histories of payments (either sign, zero, boundary amounts) with 0-3 (quick) faults from the alphabet {random pair, honest reply re-blinded / shifted / swapped, evil-merchant signatures on states with altered balances, channel id, lock or second slot, the other message type for the same state, second merchant key, right signature under a wrong blinding factor, replies recorded in other sessions / earlier payments, all-identity} injected before the honest reply at each of the four replies; after every call a closing message from a copy of the state is checked against the merchant's close check, the ledger and the set of disclosed locks. Distinct = distinct (stage, fault kind) injections and distinct (stage, observation point, ledger state) closes."));
+    let m = match fixtures::merchant(c.seed, "m0") {
+        Ok(m) => m,
+        Err(e) => return c.inconclusive(&e),
+    };
+    let other = match fixtures::merchant(c.seed, "m1") {
+        Ok(m) => m,
+        Err(e) => return c.inconclusive(&e),
+    };
+    identity_through_api(c, m);
+    let nh = c.tier.pick(48usize, 400);
+    let payments = c.tier.pick(3usize, 10);
+    let nfaults = c.tier.pick(3usize, 18);
+    let boundary: Vec<(u64, u64)> = vec![(10, 1000), (0, 9), (9, 0), (MAXB, 0), (0, MAXB), (1 << 62, 1 << 62), (MAXB - 1, 1), (1, 1)];
+    for h in 0..nh {
+        let name = format!("history{}", h);
+        c.case(&name, |c| {
+            let mut rng = c.rng(&format!("{}/setup", name));
+            let (cust, merch) = if h < boundary.len() { boundary[h] } else { (shaped_u64(&mut rng) & MAXB, shaped_u64(&mut rng) & MAXB) };
+            // replies recorded in an unrelated session of the same merchant (for the replay faults)
+            let mut recorded: Vec<(String, Vec<u8>)> = vec![];
+            if let Ok(mut o) = Sess::open(m, &mut rng, 50, 50, b"other-session") {
+                let _ = o.pay(&mut rng, amount(1).unwrap(), b"other-session");
+                for (i, r) in o.log.iter().enumerate() {
+                    if r.dir == "m2c" {
+                        recorded.push((format!("other-session-{}-{}", r.kind, i), r.bytes.clone()));
+                    }
+                }
+            }
+            if let Err(p) = guard(|| run_history(c, m, other, &name, cust, merch, payments, nfaults, &mut recorded)) {
+                c.violation(&format!("C03 panic loc={}", repo_rel(&p.location)), json!({"panic": p.message, "history": name}));
+            }
+        });
+    }
 }
